@@ -1666,6 +1666,9 @@ class C19(Spec):
                   'the value, nothing else changed), C19_unterminated_names, C19_undefined_macro_reported (the invocation of an undefined macro in '
                   'text with no other brace or backslash is left as written and reported by exactly one diagnostic naming it, for every '
                   'surrounding text; the defined and the escaped invocation report nothing: C11_simple_invocation, C17_escaped_invocation). '
+                  'Never spurious on whole documents: C19_emphasis_silent, C19_tag_silent, C19_header_silent, C19_code_block_silent, '
+                  'C19_comment_block_silent, C19_nested_list_silent, C19_define_invoke_silent (the well-formed documents of the end-to-end theorems '
+                  'render successfully with the log unchanged, for all texts, names, lengths, sessions and fuels those theorems quantify over). '
                   'Completeness and silence on whole documents are decided by the fault-injection oracle and the transcript correspondence.')
     rule = ('well-formed generated documents (zero diagnostics expected) and single-fault mutants (closing delimiter removed, macro name '
             'misspelt, option value corrupted, block option / block name unknown, pattern ill-formed); also rendered without callback; '
